@@ -37,6 +37,33 @@ def _has_incomplete_ghost(ob):
     return any(('(' + g + ' ') in txt for g in ('exp', 'log', 'rpow'))
 
 
+def _mentions_ghost(f):
+    t = f.sexpr()
+    return any(('(' + g + ' ') in t for g in ('exp', 'log', 'rpow'))
+
+
+def _mentions_any_ghost(f):
+    t = f.sexpr()
+    return any(('(' + g + ' ') in t for g in ('exp', 'log', 'rpow', 'sqrt', 'csqrt_re', 'csqrt_im'))
+
+
+def _ghost_free_model(ob, timeout):
+    ax = getattr(ob, 'axiom_ids', None)
+    if ax is None or _mentions_ghost(ob.goal):
+        return None
+    rest = []
+    for h in ob.hyps:
+        if _mentions_ghost(h):
+            if h.get_id() not in ax:
+                return None
+        else:
+            rest.append(h)
+    r = smt.solve(rest + [z3.Not(ob.goal)], timeout_ms=timeout, fallback=False)
+    if r['status'] == 'sat':
+        return dict(r, backend=(r.get('backend') or '') + ' (ghost-free hypotheses; axiom instances of exp/log/rpow hold for the real functions)')
+    return None
+
+
 def _run_one(args):
     prop, name, tier, sizes = args
     spec = HARNESSES[(prop, name)]
@@ -98,8 +125,10 @@ def _run_one(args):
             if r['status'] == 'unsat':
                 continue
             if r['status'] == 'sat' and _has_incomplete_ghost(ob):
-                # a model under the incomplete axioms of exp/log/rpow/f32 is not a counterexample: undecided, not refuted
-                r = dict(r, status='unknown', reason='satisfiable only under the incomplete axiomatisation of transcendental ghost functions')
+                # a model under the incomplete axioms of exp/log/rpow/f32 is not a counterexample: undecided, not refuted - unless the goal and all
+                # hypotheses other than axiom instances (facts true of the real functions for every argument) are free of those functions: then a
+                # model of the ghost-free part extends to a model of everything by interpreting the ghost symbols as the real functions
+                r = _ghost_free_model(ob, timeout) or dict(r, status='unknown', reason='satisfiable only under the incomplete axiomatisation of transcendental ghost functions')
             if r['status'] == 'sat' and getattr(ob, 'full', None) is not None:
                 # the reduced (isolated / generalised) query has a model: only a model of the FULL obligation is a counterexample
                 r2 = smt.solve(list(ob.full[0]) + [z3.Not(ob.full[1])], timeout_ms=timeout)
@@ -114,6 +143,30 @@ def _run_one(args):
                 rec['model'] = r.get('model')
                 rec['path'] = ob.path
                 break
+            if not any(z3.is_quantifier(h) for h in ob.hyps) and not _has_incomplete_ghost(ob):
+                # nonlinear queries: a counter-model is searched by sampling (sound: any model found is a model of hypotheses and negated goal)
+                full = getattr(ob, 'full', None)
+                fs = (list(full[0]) + [z3.Not(full[1])]) if full is not None else ob.formula()
+                if not any(z3.is_quantifier(h) for h in fs):
+                    r3 = smt.refute_by_sampling(fs, seed=int(os.environ.get('VERIF_SEED', '0') or 0))
+                    if r3 is not None:
+                        rec.update(status='refuted', model=r3['model'], path=ob.path, backend=r3['backend'])
+                        rec['time'] += r3['time']
+                        break
+            if _has_incomplete_ghost(ob):
+                # transcendental ghost functions: candidate assignments are validated with rigorous interval arithmetic (pvc/ieval.py)
+                from . import ieval
+                full = getattr(ob, 'full', None)
+                hy, gl = (list(full[0]), full[1]) if full is not None else (list(ob.hyps), ob.goal)
+                # axiom instances (facts that hold for the real sqrt/exp/log/rpow at every argument) need no evaluation: they are true of the functions
+                # the intervals enclose; exact equalities among them could not be decided by intervals anyway
+                ax = getattr(ob, 'axiom_ids', set())
+                hy = [h for h in hy if not (h.get_id() in ax and _mentions_any_ghost(h))]
+                if not any(z3.is_quantifier(h) for h in hy):
+                    cex = ieval.find_counterexample(hy, gl, smt.free_consts(hy + [gl]), seed=int(os.environ.get('VERIF_SEED', '0') or 0))
+                    if cex is not None:
+                        rec.update(status='refuted', model=cex, path=ob.path, backend='interval evaluation (mpmath.iv) of a sampled assignment')
+                        break
             rec['status'] = 'unknown'
             rec['reason'] = r.get('reason')
             break          # one undecided path instance decides the verdict of the name (a counter-model is searched in refutation mode below)
@@ -140,7 +193,18 @@ def _run_one(args):
             for ob in obls2:
                 if ob.name not in want or z3.is_true(ob.goal):
                     continue
-                r = smt.solve([smt.expand_bounded(h) for h in ob.hyps] + [z3.Not(ob.goal)], timeout_ms=min(timeout, 10000), fallback=False)
+                hy2 = [smt.expand_bounded(h) for h in ob.hyps]
+                r = smt.solve(hy2 + [z3.Not(ob.goal)], timeout_ms=min(timeout, 10000), fallback=False)
+                if r['status'] != 'unsat' and _has_incomplete_ghost(ob) and not any(z3.is_quantifier(h) for h in hy2):
+                    from . import ieval
+                    cex = ieval.find_counterexample(hy2, ob.goal, smt.free_consts(hy2 + [ob.goal]), seed=int(os.environ.get('VERIF_SEED', '0') or 0))
+                    if cex is not None:
+                        for rec in out['obligations']:
+                            if rec['name'] == ob.name:
+                                rec.update(status='refuted', model=dict(cex, **{f'size:{k}': v for k, v in sz.items()}), path=ob.path,
+                                           backend='interval evaluation (mpmath.iv) of a sampled assignment (refutation mode, sizes fixed)')
+                        want.discard(ob.name)
+                        continue
                 if r['status'] == 'sat' and not _has_incomplete_ghost(ob):
                     for rec in out['obligations']:
                         if rec['name'] == ob.name:
